@@ -74,7 +74,8 @@ CLAIMED = {
         text="Complete proof relative to the file-operation contracts: the extracted code is loop-free, every decision (each operation x ok / raise / partial write / process death, "
              "pre-existing target or not, stale staging file or not, str or pathlib path) is enumerated, and the invariant 'target holds the old or the complete new file, mtime changes only "
              "with the new content' is an obligation after every operation; exit postconditions on every path.",
-        note="Assumes POSIX rename atomicity and the open/write/close/remove/serialiser contracts stated in contracts/filestore.py (T8). os._exit / SIGKILL are modelled as 'no further operation takes effect'.",
+        note="Assumes POSIX rename atomicity and the open/write/close/remove/serialiser contracts stated in contracts/filestore.py (T8). os._exit / SIGKILL are modelled as 'no further operation takes effect'. "
+             "A bounded native probe (real files, injected I/O errors, os._exit in a child before / after the rename and while writing) validates the file-operation contracts and is the native replay.",
     ),
     "C12": dict(
         technique="contract verification of read/write plumbing on a ghost file system (same path, mode, encoding object, newline handling, serialiser pair), MountedStore (order of operations, local path private to each operation), get_modified_time against the file's mtime (symbolic, incl. 0)",
@@ -102,7 +103,8 @@ CLAIMED = {
         technique="structural contracts: bound-call construction (who holds which slot), release of the bound call on every exit of process",
         text="Proved: every Call gets a fresh slot, BoundCall(c) holds exactly the slots of c's argument predecessors and c's own result slot, the output slot is the output node's; "
              "bound_call_lookup[c].value is None on every exit of process(c). NOT expressible: that the object is actually unreachable / collected (tracebacks, frames, reference cycles).",
-        note="Garbage-collectability is outside contract-based verification; reference cycles created elsewhere (e.g. by a retry decorator keeping exceptions) are invisible to these contracts.",
+        note="Garbage-collectability itself is outside contract-based verification: beyond the structural contracts and the syntactic 'no caught exception bound beyond its handler' obligation it is decided only by the bounded native release probe "
+             "(weak references inspected from inside later calls, cyclic collector disabled, six plan shapes and failing consumers). An exception raised by user code keeps the frames of that user code alive while the run reports it: not counted as uberjob holding the value.",
     ),
     "C18": dict(
         technique="contract verification of _to_naive_utc_time against the spec function instant() with an uninterpreted local-offset function (all time zones / DST rules), z3",
@@ -115,7 +117,7 @@ CLAIMED = {
         text="Proved: get_stack_frame returns the frames from the caller's caller outward, at most MAX_TRACEBACK_DEPTH + 1, with the truncation marker iff more exist, and depends on the current chain only; "
              "rendering lists them outermost first; call / gather / unpack / add / source capture the frame in their own undecorated body with the default depth; read / write nodes inherit the registry entry's frame; "
              "CallError.call and __cause__ are the failed node and its exception.",
-        note="Known finding F4: CallError cannot be built for a registered Literal (AttributeError). T11: a plain def adds exactly one frame.",
+        note="Known finding F4: CallError cannot be built for a registered Literal (AttributeError). T11: a plain def adds exactly one frame. A bounded native probe (every kind of creating line at three stack depths) stands in when the plan-construction contracts do not apply to restructured code.",
     ),
     "C20": dict(
         technique="contracts on State (symbolic counts, real-valued ghost clock), sorted_scope_items on scope values whose '<' answers or raises per pair, update thread as an Owicki-Gries proof (ghost version, _stale protected by _lock); bounded enumeration of console / HTML / IPython renders",
